@@ -1,5 +1,6 @@
 // C10 (definition through callbacks) and C11 (description text <-> callbacks).
 #include "props.hpp"
+#include <algorithm>
 
 namespace vf {
 GramDef genTextGramPublic(Choices &c, int tier, bool mutate);
@@ -31,7 +32,21 @@ void injectDefect(Choices &c, RawGram &g, std::set<std::string> &labels) {
   case 13: if (nR) { const char *n[] = {"$S", "$eof"}; g.rules[c.flip() ? 0 : c.upto(nR - 1)].lhs = n[c.upto(1)]; labels.insert("d:reserved-name-as-lhs"); } break;
   case 14: if (nR) { RawRule r; r.lhs = rrule().lhs; r.rhs = {r.lhs}; g.rules.push_back(r); labels.insert("d:direct-loop"); } break;
   case 15: if (nR) { RawRule r1, r2; r1.lhs = rrule().lhs; r1.rhs = {"L"}; r2.lhs = "L"; r2.rhs = {r1.lhs}; g.rules.push_back(r1); g.rules.push_back(r2); labels.insert("d:indirect-loop"); } break;
-  case 16: if (nR) { RawRule r, e; r.lhs = rrule().lhs; r.rhs = {"E", r.lhs, "E"}; e.lhs = "E"; g.rules.push_back(r); g.rules.push_back(e); labels.insert("d:loop-through-nullable-siblings"); } break;
+  case 16: if (nR) {
+      // a loop through nullable siblings; the sibling is nullable directly or through a chain of 1-5 further nonterminals,
+      // each with a non-empty alternative as well, listed top-down or bottom-up
+      RawRule r; r.lhs = rrule().lhs; r.rhs = {"E", r.lhs, "E"};
+      std::vector<RawRule> chain;
+      int k = c.upto(5);
+      for (int j = 0; j <= k; j++) {
+        std::string me = j == 0 ? std::string("E") : "E" + std::to_string(j), next = "E" + std::to_string(j + 1);
+        RawRule a; a.lhs = me; if (j < k) a.rhs = {next}; chain.push_back(a);
+        if (k > 0 && !g.terms.empty()) { RawRule b; b.lhs = me; b.rhs = {g.terms[0].first}; chain.push_back(b); }
+      }
+      if (c.flip()) std::reverse(chain.begin(), chain.end());
+      if (c.flip()) { g.rules.push_back(r); for (auto &x : chain) g.rules.push_back(x); }
+      else { for (auto &x : chain) g.rules.push_back(x); g.rules.push_back(r); }
+      labels.insert(k ? "d:loop-through-siblings-nullable-by-a-chain" : "d:loop-through-nullable-siblings"); } break;
   case 17: if (nR) { RawRule r; r.lhs = "U"; r.rhs = {"U", "a"}; g.rules.push_back(r); if (c.flip()) { rrule().rhs.push_back("U"); labels.insert("d:unproductive-used"); } else labels.insert("d:unproductive-unreachable"); } break;
   case 18: if (nR) { RawRule r; r.lhs = "Z"; r.rhs = {"a"}; g.rules.push_back(r); labels.insert("d:unreachable"); } break;
   case 19: if (nR) { g.rules[0].rhs = {g.rules[0].lhs, "a"}; for (size_t i = 1; i < g.rules.size(); i++) if (g.rules[i].lhs == g.rules[0].lhs) { g.rules[i].rhs = {g.rules[0].lhs}; } labels.insert("d:unproductive-start"); } break;
@@ -155,7 +170,13 @@ struct Layout {
     case 5: out += "\t"; break;
     case 6: out += "\n"; newlines++; break;
     case 7: out += "  \n "; newlines++; break;
-    case 8: out += " /* c" + std::string(c.flip() ? "\n * x " : "") + "*/ "; comments++; break;
+    case 8: { // a comment with an arbitrary body over a small alphabet (stars, slashes, newlines, text); the only restriction is the
+              // syntax itself: the body does not contain the closing sequence
+      std::string body;
+      int n = c.upto(8);
+      for (int i = 0; i < n; i++) { char ch = "* /x\n*c-"[c.upto(7)]; if (ch == '/' && !body.empty() && body.back() == '*') ch = ' '; body += ch; if (ch == '\n') newlines++; }
+      out += " /*" + body + "*/ "; comments++; break;
+    }
     case 9: out += "/**/"; comments++; break;
     case 0: out += " "; break;
     }
